@@ -26,7 +26,7 @@ CONFIG = {
     'quick': {'shards': 16, 'cases': 4, 'timeout': 900, 'floor': 20},
     'thorough': {'shards': 32, 'cases': 250, 'timeout': 5400, 'floor': 2500},
 }
-REQUIRED = ['contract_weighted_var', 'contract_rvs', 'contract_logpdf', 'contract_weighted_sample_quantile', 'populations_checked', 'weights_compared', 'cov_compared', 'threshold_user', 'threshold_quantile', 'continued_runs', 'continued_runs_other_form', 'threshold_exactly_zero',
+REQUIRED = ['contract_weighted_var', 'contract_rvs', 'contract_logpdf', 'contract_weighted_sample_quantile', 'populations_checked', 'weights_compared', 'cov_compared', 'threshold_user', 'threshold_quantile', 'continued_runs', 'continued_runs_other_form', 'earlier_result_rechecked', 'far_parameter_runs', 'threshold_exactly_zero',
             'prior_hier', 'prior_bounded', 'prior_unbounded', 'n_sim_checked']
 
 
@@ -36,6 +36,16 @@ def gen_cases(ctx):
     while made < ctx.ncases:
         spec = models.gen_spec(rng, flavours=('cont', 'cont', 'quant', 'quant'))
         want_zero = (made == 0)          # every shard drives at least one exact-match (threshold 0) schedule
+        flat = [p for p in spec['params'] if not p.get('hier') and not any(isinstance(a, dict) and a.get('ref') == p['name']
+                                                                                for q in spec['params'] for a in q['args'])]
+        if flat and not want_zero and rng.random() < 0.25:
+            # a parameter that lives far from zero relative to its spread (a Julian date, a population in millions)
+            p = flat[int(rng.integers(len(flat)))]
+            loc = float(rng.choice([2.46e6, -3.1e5, 7.0e7]))
+            p.update(dist='norm', args=[loc, float(rng.choice([1.0, 2.0]))], support_pos=False)
+            i = [q['name'] for q in spec['params']].index(p['name'])
+            spec['obs'] = [float(o + spec['sim']['coefs'][i] * loc) for o in spec['obs']]
+            spec['far_parameter'] = p['name']
         if want_zero:
             spec['disc']['flavour'] = 'quant'
             spec['disc']['levels'] = 2.0
@@ -109,6 +119,7 @@ def run_case(ctx, case):
         ctx.event('prior_bounded')
     if 'norm' in kinds:
         ctx.event('prior_unbounded')
+    ctx.event('far_parameter_runs', bool(spec.get('far_parameter')))
     m = models.build(spec)
     bs, N = case['bs'], case['n']
     smc = elfi.SMC(m['d'], batch_size=bs, seed=case['seed'])
@@ -127,6 +138,8 @@ def run_case(ctx, case):
     with contracts.attached(ctx, *c13.specs(ctx)):
         res = smc.sample(N, bar=bool(case.get('bar')), **kw)
         first_thr = float(res.populations[-1].threshold)
+        first_res, first_n_pops, first_n_sim = res, len(res.populations), res.n_sim
+        first_last = {k_: np.array(v_, copy=True) for k_, v_ in res.populations[-1].outputs.items()}
         per_round = [('t', v) for v in kw.get('thresholds', [])] + [('q', v) for v in kw.get('quantiles', [])]
         if 'cont' in case:
             cont = dict(case['cont'])
@@ -139,6 +152,12 @@ def run_case(ctx, case):
             res = smc.sample(N, bar=bool(case.get('bar')), **cont)
             per_round += [('t', v) for v in cont.get('thresholds', [])] + [('q', v) for v in cont.get('quantiles', [])]
             ctx.event('continued_runs')
+            # the SmcSample returned by the first call must still describe the first estimation
+            if len(first_res.populations) != first_n_pops or first_res.n_sim != first_n_sim or \
+                    any(not np.array_equal(first_res.populations[-1].outputs[k_], v_) for k_, v_ in first_last.items()):
+                raise Violation('earlier-result-changed', 'the SmcSample returned by the first sample() call changed when the same sampler continued: '
+                                '%d populations (were %d), n_sim %s (was %s)' % (len(first_res.populations), first_n_pops, first_res.n_sim, first_n_sim))
+            ctx.event('earlier_result_rechecked')
     pops = res.populations
     nr = len(per_round)
     mode = 'mixed'
@@ -190,7 +209,10 @@ def run_case(ctx, case):
         ctx.event('cov_compared')
         if not np.all(np.isfinite(cov)):
             raise Skip('degenerate covariance')
-        if np.shape(p.cov) != cov.shape or not np.allclose(p.cov, cov, rtol=1e-9):
+        # two correct two-pass evaluations differ by about eps * |mean| / sd in each deviation when a parameter lives far from zero
+        with np.errstate(all='ignore'):
+            far = float(np.max(np.abs(th.mean(0)) / np.maximum(th.std(0), 1e-300)))
+        if np.shape(p.cov) != cov.shape or not np.allclose(p.cov, cov, rtol=1e-9 + 20 * np.finfo(float).eps * far):
             raise Violation('cov', 'round %d: population covariance is not twice the weighted sample variance' % r, {'got': p.cov, 'expected': cov})
         prev = {'th': th, 'w': w, 'd': dsc, 'cov': np.asarray(p.cov)}
     ctx.nontrivial(len(pops) >= 2)
